@@ -630,10 +630,26 @@ def install(ip):
             return Builtin("Struct.unpack", lambda ip_, a, k: struct_unpack_from(ip, [s.fmt, *a], k, exact=True))
         raise Unsupported("Struct attr " + name)
     ip.attr_handlers[StructVal] = struct_attr
+    from .prims import ArrayVal, array_attr
+    ip.attr_handlers[ArrayVal] = array_attr
 
     ip.call_handlers = {}
     ip.call_handlers[Partial] = lambda ip, p, a, k: ip.call(p.f, p.args + list(a), {**p.kwargs, **k})
     ip.call_handlers[MethodCaller] = lambda ip, m, a, k: ip.call(ip.do_getattr(a[0], m.name), m.args, m.kwargs)
+
+    # objects whose class derives from builtin dict: super().__setitem__ etc. act on the backing PDict
+    def _backing(o):
+        return o.fields["__data__"]
+    for nm in ("__getitem__", "__setitem__", "__delitem__", "get", "pop", "setdefault", "keys", "values", "items",
+               "update", "clear", "copy", "popitem", "move_to_end"):
+        for base in ("dict", "OrderedDict", "defaultdict"):
+            M[("super:" + base, nm)] = (lambda ip, o, a, k, _nm=nm: M[("dict", _nm)](ip, _backing(o), a, k))
+
+    def _dict_init(ip, o, a, k):
+        d = ip.call(ip.builtins["dict"], a, k)
+        o.fields["__data__"].items.update(d.items)
+    for base in ("dict", "OrderedDict"):
+        M[("super:" + base, "__init__")] = _dict_init
 
     # exceptions: e.args, str(e)
     M[("exc", "with_traceback")] = lambda ip, e, a, k: e
